@@ -34,7 +34,11 @@ static int build_mixed(rng_t *r,int thorough,buf_t *out,char *desc,size_t dn,int
       pk=er.pk; havepk=1;
       if(k+60<dn) k+=snprintf(desc+k,dn-k," [enc ch%d %ldHz N=%ld]",c.channels,c.rate,c.nsamples);
     }
-    if(havepk){ int pol=(int)rng_below(r,PAGE_NKINDS); mux_stream(&pk,(int)rng_next(r),pol,(int)rng_range(r,1,20000),rng_next(r),out); pktlist_free(&pk); }
+    if(havepk){ int pol=(int)rng_below(r,PAGE_NKINDS); int ser=(int)rng_next(r); int fill=(int)rng_range(r,1,20000); uint64_t ms=rng_next(r);
+      /* every 8th link: hand-built pages, the link's data starts with pages that only continue a packet whose first page is missing */
+      if(!(rng_chance(r,0.125) && mux_headless_tail(&pk,ser,rng_chance(r,0.6)?0:(int)rng_below(r,3),out) && (k+40<dn? (k+=snprintf(desc+k,dn-k,"{data starts with continuation pages}")):1)))
+        mux_stream(&pk,ser,pol,fill,ms,out);
+      pktlist_free(&pk); }
   }
   return out->n>0?0:-1;
 }
@@ -105,12 +109,14 @@ static long wild_i64(rng_t *r,ogg_int64_t total){
 static double wild_d(rng_t *r,double dur){
   switch(rng_below(r,9)){ case 0: return 0; case 1: return dur; case 2: return -1; case 3: return dur+1; case 4: return NAN; case 5: return INFINITY; case 6: return -INFINITY; case 7: return 1e300; default: return rng_unit(r)*dur; }
 }
+static void __attribute__((noinline)) dirty_stack(int i){ static const int pat[3]={0xff,0x00,0x7f}; volatile char junk[1<<15]; memset((void*)junk,pat[i%3],sizeof junk); (void)junk[4321]; }
 static void run_script(rng_t *r,H *h,H *h2,int nops,size_t nbytes,const char *desc){
   OggVorbis_File *vf=&h->vf; static char ibuf[1<<16]; const char *lastop="open";
   for(int i=0;i<nops;i++){
     int o=(int)rng_below(r,NOPS); long ret=0; int bs=0; float **pcm;
     ogg_int64_t T=ov_pcm_total(vf,-1); double D=ov_time_total(vf,-1); if(!(D>=0)) D=0;
     ctx_mark("%s",opname[o]);
+    dirty_stack(i);      /* whatever an earlier call left on the stack must not matter: all-ones, zero and 0x7f patterns in turn */
     if(vh_trace) fprintf(stderr,"op %d %s | state %d link %d pcm_offset %lld raw %lld\n",i,opname[o],vf->ready_state,vf->current_link,(long long)vf->pcm_offset,(long long)vf->offset); if(vh_trace) fprintf(stderr,"   os: body_fill %ld body_returned %ld lacing_fill %ld lacing_returned %ld lacing_packet %ld serial %ld\n",vf->os.body_fill,vf->os.body_returned,vf->os.lacing_fill,vf->os.lacing_returned,vf->os.lacing_packet,vf->os.serialno);
     switch(o){
     case 0: ret=ov_read_float(vf,&pcm,(int)(rng_chance(r,0.1)?wild_i64(r,5000):rng_range(r,1,5000)),rng_chance(r,0.2)?NULL:&bs);
@@ -222,7 +228,23 @@ static long scn_body(OggVorbis_File *vf,OggVorbis_File *other,const scn_t *S,lon
   return ret;
 }
 /* recovery probe: after faults stop, seeks to valid positions and the reads after them must equal the never-faulted reference */
+/* the true end of the data is still an end of file, not an error (a zero-byte read is told from a read error only by errno, which an earlier failing callback may
+   have left set).  from_start: seek to 0 (reads the head of the file only, so nothing between the failure and the end of data consults errno) and read everything. */
+static int probe_eof(OggVorbis_File *vf,const refdec_t *F,rng_t *r,char *why,size_t wn){
+  {
+    /* from the start when that is cheap (a seek to 0 reads the head of the file only, so nothing between the failure and the true end of data consults errno),
+       else from 700 samples before the end */
+    ogg_int64_t p= (F->total<=20000 || rng_chance(r,0.125))? 0 : (F->total>700? F->total-700:0); int rs=ov_pcm_seek(vf,p); if(rs){ snprintf(why,wn,"ov_pcm_seek(%lld) near the end after the fault cleared returned %d",(long long)p,rs); return -1; }
+    ogg_int64_t pos=p; long g; float **pcm; int bs; int guard=0;
+    while((g=ov_read_float(vf,&pcm,4096,&bs))>0 && guard++<10000) pos+=g;
+    if(g<0){ snprintf(why,wn,"read at the end of the stream after recovery returned %ld at %lld of %lld",g,(long long)pos,(long long)F->total); return -1; }
+    if(pos!=F->total){ snprintf(why,wn,"reading to the end after recovery stopped at %lld of %lld",(long long)pos,(long long)F->total); return -1; }
+  }
+  return 0;
+}
 static int recovery_probe(OggVorbis_File *vf,const refdec_t *F,rng_t *r,char *why,size_t wn,int lapfirst){
+  int eof_first= !lapfirst && F->total<=20000 && rng_chance(r,0.4);
+  if(eof_first){ res_count("recovery_starts_with_seek_to_0_and_read_to_the_end",1); if(probe_eof(vf,F,r,why,wn)) return -1; }
   for(int k=0;k<3;k++){
     ogg_int64_t p= F->total>0?(ogg_int64_t)rng_range(r,0,(long)F->total-1):0;
     if(k==2) p=0;
@@ -254,6 +276,7 @@ static int recovery_probe(OggVorbis_File *vf,const refdec_t *F,rng_t *r,char *wh
       pos+=g; want-=g;
     }
   }
+  if(!eof_first && probe_eof(vf,F,r,why,wn)) return -1;
   return 0;
 }
 static void case_c12(const drvargs_t *a,long id){
